@@ -436,6 +436,8 @@ def run(rep, tier):
     rep.guard("R30.1", "qualify_package", r1_body)
 
     # ================================================================================================ R30.2
+    r2_state = {}
+
     def r2():
         f = wmp
         imports_n = [i for i in range(1, f.argc + 1) if "Imports" in f.locals[i]]
@@ -445,11 +447,36 @@ def run(rep, tier):
             return
         imp_n = imports_n[0]
         src_n = [i for i in range(1, f.argc + 1) if mir.base_type(f.locals[i]) == "Source"]
-        its = []
-        for x in f.calls(mp("iter", "keys", "values", "into_iter", "iter_mut", "into_keys", "into_values") + ["IntoIterator>::into_iter"]):
-            o = f.origin(x.args[0])
-            if ".packages" in fields_of(o):
-                its.append((x, o))
+        ITER = mp("iter", "keys", "values", "into_iter", "iter_mut", "into_keys", "into_values") + ["IntoIterator>::into_iter"]
+
+        def find_its(fn_):
+            out = []
+            for x in fn_.calls(ITER):
+                o = fn_.origin(x.args[0])
+                if ".packages" in fields_of(o):
+                    out.append((x, o))
+            return out
+        its = find_its(f)
+        hf, hcall, table_n = f, None, imp_n
+        if not its:
+            # inline view: a same-crate helper that is handed the `imports` table and iterates it; what happens inside the
+            # helper counts at its call site, the helper's parameter is the argument passed here
+            cands = []
+            for x in f.calls():
+                tg = [g_ for g_ in c.fns.values() if g_.npath in {mir.norm(n_) for n_ in x.names()}]
+                if len(tg) != 1:
+                    continue
+                for i_a, a_ in enumerate(x.args):
+                    oa = f.origin(a_)
+                    if oa.get("kind") == "arg" and oa.get("n") == imp_n and i_a + 1 <= tg[0].argc and "Imports" in tg[0].locals[i_a + 1]:
+                        sub = [(y, o_) for y, o_ in find_its(tg[0]) if o_.get("kind") == "arg" and o_.get("n") == i_a + 1]
+                        if sub:
+                            cands.append((x, tg[0], i_a + 1, sub))
+            if len(cands) == 1:
+                hcall, hf, table_n, its = cands[0]
+                its = list(its) + [(y, o_) for y, o_ in find_its(hf) if (y, o_) not in its and y.bb not in {z.bb for z, _ in its}]
+                rep.saw(hf)
+                r2_state["helper"] = hf
         rep.ob("R30.2", "imports.packages is iterated exactly once, as (path, alias) pairs",
                len(its) == 1 and its[0][0].matches(mp("iter", "into_iter") + ["IntoIterator>::into_iter"]),
                f"{[mir.norm(x.callee) for x, _ in its]}", f.loc())
@@ -457,14 +484,14 @@ def run(rep, tier):
         if len(its) != 1:
             return
         it, o = its[0]
-        rep.ob("R30.2", "the table iterated is the `imports` argument", o.get("kind") == "arg" and o.get("n") == imp_n, describe(f, o), f.loc(it.bb))
+        rep.ob("R30.2", "the table iterated is the `imports` argument", o.get("kind") == "arg" and o.get("n") == table_n, describe(hf, o), hf.loc(it.bb))
         # follow the iterator through adaptors to the collected Vec
         cur = it
         chain = []
         closure_fns = []
         for _ in range(8):
-            nxt = [x for x in f.calls() if x.args and x is not cur and f.origin(x.args[0]).get("kind") == "call"
-                   and f.origin(x.args[0])["call"].bb == cur.bb and not f.origin(x.args[0]).get("proj")
+            nxt = [x for x in hf.calls() if x.args and x is not cur and hf.origin(x.args[0]).get("kind") == "call"
+                   and hf.origin(x.args[0])["call"].bb == cur.bb and not hf.origin(x.args[0]).get("proj")
                    and (x.args[0].get("mv") or {}).get("l") == cur.dest["l"]]
             if len(nxt) != 1:
                 break
@@ -472,36 +499,55 @@ def run(rep, tier):
             nm = mir.norm(cur.callee).split("::")[-1]
             chain.append(nm)
             if len(cur.args) > 1:
-                a = f.origin(cur.args[1])
+                a = hf.origin(cur.args[1])
                 if a.get("kind") == "agg" and "closure" in a["rv"]:
                     closure_fns.append((nm, a["rv"]["closure"]))
             if nm == "collect":
                 break
         rep.ob("R30.2", "every entry is kept: only element-preserving adaptors between iter() and collect()",
                bool(chain) and chain[-1] == "collect" and all(n in KEEP_ALL for n in chain) and "map" in chain,
-               f"adaptor chain {chain}", f.loc(it.bb))
-        bad = [mir.norm(x.callee).split("::")[-1] for g in with_closures(c, f) for x in g.calls(re.compile(r"iter::(traits::)?\w*::?Iterator::|Iterator::"))
+               f"adaptor chain {chain}", hf.loc(it.bb))
+        scope = with_closures(c, f) + (with_closures(c, hf) if hf is not f else [])
+        bad = [mir.norm(x.callee).split("::")[-1] for g in scope for x in g.calls(re.compile(r"iter::(traits::)?\w*::?Iterator::|Iterator::"))
                if mir.norm(x.callee).split("::")[-1] not in KEEP_ALL]
         rep.ob("R30.2", "write_moon_pkg uses no element-dropping iterator adaptor at all", not bad, f"{bad}", f.loc())
         if not chain or chain[-1] != "collect":
             return
         deps = cur.dest["l"]
-        rep.ob("R30.2", "the collected list is a Vec<String>", "Vec<std::string::String>" in f.locals[deps], f.locals[deps], f.loc(cur.bb))
+        rep.ob("R30.2", "the collected list is a Vec<String>", "Vec<std::string::String>" in hf.locals[deps], hf.locals[deps], hf.loc(cur.bb))
 
-        def on_deps(x):
-            o_ = peel(f, f.origin(x.args[0]), extra=["DerefMut>::deref_mut"])
-            return o_.get("kind") == "call" and o_["call"].bb == cur.bb
-        sorts = [x for x in f.calls(SORTS) if on_deps(x)]
-        joins = [x for x in f.calls(["slice::<impl [S]>::join", "slice::<impl [T]>::join", re.compile(r"::join$"), re.compile(r"::concat$")]) if on_deps(x)]
-        shr = [x for x in f.calls(VEC_SHRINK) if on_deps(x)]
+        def on_res(fn_, x, bb):
+            o_ = peel(fn_, fn_.origin(x.args[0]), extra=["DerefMut>::deref_mut"])
+            return o_.get("kind") == "call" and o_["call"].bb == bb and not fields_of(o_)
+        JOIN = ["slice::<impl [S]>::join", "slice::<impl [T]>::join", re.compile(r"::join$"), re.compile(r"::concat$")]
+        sorts_h = [x for x in hf.calls(SORTS) if on_res(hf, x, cur.bb)]
+        shr = [x for x in hf.calls(VEC_SHRINK) if on_res(hf, x, cur.bb)]
+        if hcall is not None:
+            # the helper returns the collected list, and the caller works on that result
+            ro = hf.place_origin({"l": 0})
+            rep.ob("R30.2", "the helper returns the collected list itself", ro.get("kind") == "call" and ro["call"].bb == cur.bb and not fields_of(ro),
+                   describe(hf, ro), hf.loc())
+            rep.ob("R30.2", "the helper does not join / flatten the list itself", not [x for x in hf.calls(JOIN) if on_res(hf, x, cur.bb)], "", hf.loc())
+            res_bb = hcall.bb
+            sorts_f = [x for x in f.calls(SORTS) if on_res(f, x, res_bb)]
+            shr += [x for x in f.calls(VEC_SHRINK) if on_res(f, x, res_bb)]
+        else:
+            res_bb = cur.bb
+            sorts_f, sorts_h = sorts_h, []
+        sorts = sorts_f + sorts_h
+        joins = [x for x in f.calls(JOIN) if on_res(f, x, res_bb)]
         rep.ob("R30.2", "nothing is removed from the dependency list", not shr, f"{[x.callee for x in shr]}", f.loc())
         rep.ob("R30.2", "the dependency list is joined once", len(joins) == 1, f"{len(joins)}", f.loc())
         rep.ob("R30.2", "the dependency list is sorted (HashMap order never reaches the file)", len(sorts) >= 1 and
                all(s_.matches(["slice::<impl [T]>::sort", "slice::<impl [T]>::sort_unstable"]) for s_ in sorts),
                f"{[x.callee for x in sorts]}", f.loc())
+        start_bb = hcall.bb if hcall is not None else it.bb
         for j in joins:
-            rep.ob("R30.2", "the sort dominates the join", any(f.dominates(s_.bb, j.bb) and s_.bb != j.bb for s_ in sorts), "", f.loc(j.bb))
-            rep.ob("R30.2", "every path that iterated the table reaches the join", f.all_paths_pass(it.bb, f.returns(), [j.bb]), "", f.loc(j.bb))
+            rep.ob("R30.2", "the sort dominates the join", any(f.dominates(s_.bb, j.bb) and s_.bb != j.bb for s_ in sorts_f) or
+                   (hcall is not None and f.dominates(hcall.bb, j.bb) and
+                    any(hf.all_paths_pass(cur.bb, hf.returns(), [s_.bb]) and s_.bb in hf.reachable(cur.bb) for s_ in sorts_h)), "", f.loc(j.bb))
+            rep.ob("R30.2", "every path that iterated the table reaches the join", f.all_paths_pass(start_bb, f.returns(), [j.bb]) and
+                   (hcall is None or hf.all_paths_pass(it.bb, hf.returns(), [cur.bb])), "", f.loc(j.bb))
             # joined text is written to the moon_pkg argument
             wr = [x for x in f.calls(["Write::write_fmt", "Source::push_str", "Write::write_str"]) if j.bb in f.dom[x.bb] and x.bb != j.bb]
             hit = False
@@ -567,20 +613,26 @@ def run(rep, tier):
                        p2.get("kind") == "arg" and p2.get("n") == elem and fields_of(p2)[:1] == [".1"], describe(g, p2), g.loc(fm[0].bb))
         # literal template
         sf = synq.find_fn(LIB, "write_moon_pkg", self_ty="MoonBit")
-        tp = [x for x in synq.fmts(sf.body) if x.name == "format" and x.template and "path" in x.template and "alias" in x.template]
+        bodies = [sf]
+        if hcall is not None:
+            hs_ = synq.find_fn(LIB, hf.npath.split("::")[-1], self_ty="MoonBit", required=False)
+            if hs_ is not None:
+                bodies.append(hs_)
+        tp = [(sf_, x) for sf_ in bodies for x in synq.fmts(sf_.body) if x.name == "format" and x.template and "path" in x.template and "alias" in x.template]
         rep.floor("R30.2", "import-entry templates in write_moon_pkg", len(tp), 1)
-        for x in tp:
+        rep.ob("R30.2", "one import-entry template", len(tp) == 1, f"{len(tp)}", sf.loc())
+        for sf_, x in tp:
             t = re.sub(r"\s+", "", re.sub(r"\{[^{}]+\}", "{}", x.template.replace("{{", "\x01").replace("}}", "\x02")))
             rep.ob("R30.2", 'entry template is { "path" : "<project>/<path>", "alias" : "<alias>" }',
-                   t == '\x01"path":"{}/{}","alias":"{}"\x02', f"{x.template!r}", sf.loc(x.node))
+                   t == '\x01"path":"{}/{}","alias":"{}"\x02', f"{x.template!r}", sf_.loc(x.node))
             hs = x.hole_exprs()
             if len(hs) == 3 and hs[1][2] is not None:
                 e1 = hs[1][2]
                 if e1.get("k") == "path":        # a local: look at what it was bound to
-                    inits = [init for nm_, init, st in synq.bindings(sf.body) if nm_ == e1["path"] and init is not None]
+                    inits = [init for nm_, init, st in synq.bindings(sf_.body) if nm_ == e1["path"] and init is not None]
                     e1 = inits[-1] if len(inits) == 1 else e1
                 rep.ob("R30.2", "entry template: the path hole is the '.' -> '/' replace", is_dot_slash_replace(e1),
-                       render(e1), sf.loc(x.node))
+                       render(e1), sf_.loc(x.node))
         # the import section header is emitted on the same edge as the list
         hdr = [s for s in synq.strings(sf.body) if '"import"' in s["v"]]
         rep.ob("R30.2", 'the list is emitted under the "import" key', len(hdr) == 1 and re.sub(r"\s+", "", hdr[0]["v"]) == ',"import":[', f"{[h['v'] for h in hdr]}", sf.loc())
@@ -913,6 +965,8 @@ def run(rep, tier):
         for nm in ("import_interface", "import_funcs", "import_types", "finish_imports", "export_interface", "export_funcs", "finish"):
             clean.append(c.method("MoonBit", nm, trait="WorldGenerator"))
         clean.append(c.method("AsyncSupport", "emit_runtime_files"))
+        if r2_state.get("helper") is not None:
+            clean.append(r2_state["helper"])
         for f0 in clean:
             for g in with_closures(c, f0):
                 rep.saw(g)
